@@ -90,7 +90,12 @@ pub fn source(case: &str) -> String {
       }
     }
   }
-  let args: Vec<String> = if f[7] == "-" { vec![] } else { f[7].split(',').map(arg_src).collect() };
+  let mut args: Vec<String> = if f[7] == "-" { vec![] } else { f[7].split(',').map(arg_src).collect() };
+  // the arguments: written in place, or named first (immutable or mutable variables)
+  let form = f.last().and_then(|t| t.strip_prefix("form=")).unwrap_or("lit");
+  if form == "var" || form == "mut" {
+    for (i, a) in args.iter_mut().enumerate() { src.push_str(&format!("{}q{} := {}\n", if form == "mut" { "~" } else { "" }, i, a)); *a = format!("q{}", i); }
+  }
   src.push_str(&format!("#Mach({})", args.join(", ")));
   src
 }
@@ -211,6 +216,11 @@ pub fn generate(seed: u64, thorough: bool, sink: &mut Sink) -> Vec<String> {
     let case = format!("fsm\t{}\t{}\tu64\t{}\t{}\t{}\t{}", maxsteps, inputs.iter().map(|i| format!("{}:u64", i)).collect::<Vec<_>>().join(","), declared.join(","), start, arms.join(";;"), if args.is_empty() { "-".to_string() } else { args.join(",") });
     if cases.len() < 2 { sink.sample(source(&case)); }
     cases.push(case);
+  }
+  // how the arguments of the call are written
+  let mut frng = Rng::new(seed ^ 0xc17f);
+  for c in cases.iter_mut() {
+    match frng.below(4) { 0 => { c.push_str("\tform=var"); sink.hit("arguments:variables"); } 1 => { c.push_str("\tform=mut"); sink.hit("arguments:mutable"); } _ => { sink.hit("arguments:in-place"); } }
   }
   cases
 }
